@@ -16,6 +16,7 @@ import (
 	"testing"
 
 	"github.com/bytom/bytom/protocol/bc"
+	"github.com/bytom/bytom/protocol/bc/types"
 	"github.com/bytom/bytom/protocol/state"
 
 	"verif/internal/chainkit"
@@ -232,6 +233,38 @@ func TestC19(t *testing.T) {
 		if _, err := tr.Grow(rng, o); err != nil {
 			c.Violation("harness:grow", "tree generator failed", err.Error())
 			return
+		}
+		// one history in four ends with a block whose transaction fans out into 1100 outputs: the ledger
+		// changes of one block connection then run into the thousands (a consolidation, an airdrop), which
+		// is where a store that bounds its batches would split them
+		if c.Index%4 == 1 {
+			var tip *chainkit.Blk
+			for _, b := range tr.All {
+				if tip == nil || b.Height > tip.Height {
+					tip = b
+				}
+			}
+			var src *chainkit.RefUtxo
+			for _, u := range tip.SortedUtxos() {
+				if u.Type == chainkit.UNormal && u.U.Asset == chainkit.BTM && u.U.Amount > 200000000 {
+					if _, call := chainkit.IsCall(u.U.Program); !call {
+						src = u
+						break
+					}
+				}
+			}
+			if src != nil {
+				const fan = 1100
+				fee := uint64(40000000) // about 60 kB of storage gas
+				each := (src.U.Amount - fee) / fan
+				outs := make([]chainkit.Out, fan)
+				for i := range outs {
+					outs[i] = chainkit.Out{Asset: chainkit.BTM, Amount: each, Program: []byte{0x01, byte(i), 0x01, byte(i >> 8), 0x6d, 0x51}}
+				}
+				if _, err := tr.Build(tip, []*types.Tx{chainkit.MakeTx([]*chainkit.UTXO{src.U}, outs, 0)}, chainkit.BlockOpt{}); err == nil {
+					c.Count("histories_with_a_1100_output_transaction", 1)
+				}
+			}
 		}
 		steps, _ := tr.GenScheduleFFG(rng, chainkit.FFGOpt{Byzantine: -1, VotePct: 90, EarlyVotePct: 10, BlockOrder: c.Index % 3, NodeKey: -1})
 		ids := allIDs(tr)
@@ -519,4 +552,5 @@ func TestC19(t *testing.T) {
 	r.Floor("crash_points", 300)
 	r.Floor("crash_points_recovered", 100)
 	r.Floor("histories_with_finalization", 2)
+	r.Floor("histories_with_a_1100_output_transaction", 3)
 }
